@@ -41,6 +41,8 @@ def proved_tier(run, pid, cfg, tier, collect=None):
             fn += ' [fragment only: `%s` .. `%s`; its entry state is assumed]' % contract.fragment
         if getattr(contract, 'stop_at', None):
             fn += ' [prefix only, up to `%s`]' % contract.stop_at
+        if getattr(contract, 'source', None):
+            fn += ' [COROLLARY: a lemma over the proved contracts of the repository functions it calls, not a repository function; harness text in %s]' % os.path.relpath(contract.source, os.path.dirname(os.path.dirname(os.path.abspath(__file__))))
         if info['status'] != 'ok':
             msg = 'pyvc: %s: %s' % (key, info['status'])
             if locked:
